@@ -249,6 +249,7 @@ func bkErrClass(err error) string {
 // context inside the K-th hit (K = 0: before the operation is started).
 type canceller struct {
 	K      int
+	Delay  time.Duration // wait this long inside the K-th hit before cancelling (lets the other goroutines run as far as they can)
 	Sites  map[string]bool
 	cancel context.CancelFunc
 	n      int64
@@ -263,6 +264,9 @@ func (c *canceller) tick(site string) {
 	}
 	n := atomic.AddInt64(&c.n, 1)
 	if c.K > 0 && int(n) == c.K {
+		if c.Delay > 0 {
+			time.Sleep(c.Delay)
+		}
 		atomic.StoreInt32(&c.fired, 1)
 		c.cancel()
 	}
@@ -272,10 +276,10 @@ func (c *canceller) hits() int { return int(atomic.LoadInt64(&c.n)) }
 
 // withCancelAt runs f with a context that is cancelled at the K-th hit.
 // It returns f's error, the number of hits and whether f finished in time.
-func withCancelAt(k int, sites []string, f func(ctx context.Context, c *canceller) error) (err error, hits int, fired bool, finished bool) {
+func withCancelAt(k int, delay time.Duration, sites []string, f func(ctx context.Context, c *canceller) error) (err error, hits int, fired bool, finished bool) {
 	ctx, cancel := context.WithCancel(context.Background())
 	defer cancel()
-	c := &canceller{K: k, cancel: cancel}
+	c := &canceller{K: k, Delay: delay, cancel: cancel}
 	if sites != nil {
 		c.Sites = map[string]bool{}
 		for _, s := range sites {
